@@ -1,4 +1,5 @@
 import CoolerModel.Basic
+import CoolerModel.Model.Strings
 /-!
 File-layer model (property C15): `cooler.fileops` (`_copy`, `cp`, `mv`, `ln`, `is_cooler`,
 `list_coolers`/`visititems`), the file-mode / target-group handling of `cooler.create.create`
@@ -346,18 +347,35 @@ def listing (fs : FS) (v : Variant) (f : String) : Listing :=
 
 /-! ### URIs -/
 
-def splitPath (s : String) : Path := (s.splitOn "/").filter (fun x => x ≠ "")
+/-- components of a group path given as characters: split at `/`, empty components dropped
+(HDF5 ignores repeated and trailing slashes); `cur` is the component being read, reversed -/
+def splitSlashAux : List Char → List Char → List (List Char)
+  | cur, [] => if cur = [] then [] else [cur.reverse]
+  | cur, c :: cs =>
+    if c = '/' then (if cur = [] then splitSlashAux [] cs else cur.reverse :: splitSlashAux [] cs)
+    else splitSlashAux (c :: cur) cs
+
+def splitSlash (g : List Char) : List (List Char) := splitSlashAux [] g
+
+def splitPath (s : String) : Path := (splitSlash s.toList).map String.ofList
+
+/-- `util.parse_cooler_uri` on characters: THE definition shared with property C19
+(`Cooler.Strings.parseCoolerUri`, theorem `Cooler.C19.uri_slash`), followed by the split of the
+normalised group path into components -/
+def parseCoolerUriC (s : List Char) : Except ErrClass (List Char × List (List Char)) :=
+  match Cooler.Strings.parseCoolerUri s with
+  | .ok (f, g) => .ok (f, splitSlash g)
+  | .error _ => .error .value
 
 /-- `util.parse_cooler_uri`: file path and *normalised* group path (leading slash added) -/
 def parseCoolerUriStr (s : String) : Except ErrClass (String × String) :=
-  match s.splitOn "::" with
-  | [f] => .ok (f, "/")
-  | [f, g] => .ok (f, if g.startsWith "/" then g else "/" ++ g)
-  | _ => .error .value
+  match Cooler.Strings.parseCoolerUri s.toList with
+  | .ok (f, g) => .ok (String.ofList f, String.ofList g)
+  | .error _ => .error .value
 
 def parseCoolerUri (s : String) : Except ErrClass (String × Path) :=
-  match parseCoolerUriStr s with
-  | .ok (f, g) => .ok (f, splitPath g)
+  match parseCoolerUriC s.toList with
+  | .ok (f, p) => .ok (String.ofList f, p.map String.ofList)
   | .error e => .error e
 
 /-! ### building blocks of the mutating operations -/
